@@ -29,7 +29,7 @@ def run(R):
     n = 300 if R.quick else 12000
     trace, out = tc.run_harness(R, h, "rib", n, R.seed, ms, tc.corpus_files("C06"))
     if trace is None:
-        R.oracle_failure("harness-crash", "the Go harness aborted", dict(output=out[-2000:]))
+        tc.harness_abort(R, out, "harness-crash", "the Go harness aborted")
         return R.finish()
     rc, rout, text = tc.run_runner(exe, trace)
     rep = tc.Report(rout)
